@@ -135,7 +135,16 @@ class _IPSecureTransportLayer(ABC):
                 "Verification of message authentication code failed"
             )
 
-        knxipframe, _ = KNXIPFrame.from_knx(dec_frame)
+        try:
+            knxipframe, _ = KNXIPFrame.from_knx(dec_frame)
+        except CouldNotParseKNXIP:
+            raise
+        except Exception as err:
+            # body parsers may raise eg. IndexError or ValueError for malformed content -
+            # an authentic wrapper around such a frame is discarded like any unparsable frame
+            raise CouldNotParseKNXIP(
+                f"Could not parse wrapped frame: {err!r} in {dec_frame.hex()}"
+            ) from err
         if knxipframe.header.service_type_ident in FORBIDDEN_WRAPPED_SERVICES:
             raise KNXSecureValidationError(
                 f"Service type not allowed in SecureWrapper: {knxipframe}"
